@@ -30,6 +30,7 @@ type HSpec struct {
 	Split     int    // >0: partition the path tree at this decision depth across workers
 	InitPerms bool   // permute map ranges inside package initialisers too
 	Witnesses int    // witness paths sampled for the translator self-test (default 4)
+	Termination bool // totality harness: a loop that outruns the unwinding bound is a violation candidate (replayed under a deadline)
 }
 
 // Prop describes the check of one property.
@@ -380,6 +381,12 @@ func mergeResult(dst, src *engine.HarnessResult) {
 	if len(dst.Samples) < 6 {
 		dst.Samples = append(dst.Samples, src.Samples...)
 	}
+	for k := range src.Notes {
+		if dst.Notes == nil {
+			dst.Notes = map[string]bool{}
+		}
+		dst.Notes[k] = true
+	}
 	for k, v := range src.RangeSites {
 		if dst.RangeSites == nil {
 			dst.RangeSites = map[string]int{}
@@ -427,7 +434,13 @@ func runOne(ctx *runCtx, h HSpec) *hResult {
 	if ctx.tier == "thorough" {
 		defTimeout = 120000
 	}
-	cfg := engine.Config{Tier: ctx.tier, MapPerms: h.Perms, MaxStrLen: pick(h.MaxStrLen, ctx.tier, 8), MaxWallS: 420, Witnesses: pickW(h), PermsInInit: h.InitPerms}
+	symLoop := 0
+	if h.Termination {
+		// totality harnesses run on inputs of a few code points: a loop that takes
+		// more input-dependent iterations than this is not making progress
+		symLoop = 24
+	}
+	cfg := engine.Config{MaxSymLoop: symLoop, Tier: ctx.tier, MapPerms: h.Perms, MaxStrLen: pick(h.MaxStrLen, ctx.tier, 8), MaxWallS: 420, Witnesses: pickW(h), PermsInInit: h.InitPerms, NonTermIsViolation: h.Termination}
 	if ctx.tier == "thorough" {
 		cfg.MaxWallS = 5400
 	}
@@ -854,8 +867,15 @@ func runReplay(repo, dir string) (bool, string) {
 	var meta struct {
 		Harness string `json:"harness"`
 		Dir     string `json:"dir"`
+		Kind    string `json:"kind"`
 	}
 	json.Unmarshal(mb, &meta)
+	if meta.Kind == "nontermination" {
+		// the real code must still be running after a deadline far beyond what
+		// the harness needs on any terminating input (they finish within a second)
+		s := goTest(repo, dir, "^TestVFReplay$", meta.Dir, "VF_MODEL="+filepath.Join(dir, "model.json"), "VF_HARNESS="+meta.Harness, "VF_TEST_TIMEOUT=60s")
+		return strings.Contains(s, "test timed out") || strings.Contains(s, "VF-VIOLATION"), s
+	}
 	s := goTest(repo, dir, "^TestVFReplay$", meta.Dir, "VF_MODEL="+filepath.Join(dir, "model.json"), "VF_HARNESS="+meta.Harness)
 	return strings.Contains(s, "VF-VIOLATION"), s
 }
@@ -867,8 +887,14 @@ func goTest(repo, dir, run, pkgDir string, env ...string) string {
 	base := append(os.Environ(), "GOFLAGS=-mod=mod", "GOPROXY=off", "GOSUMDB=off", "GOTOOLCHAIN=local")
 	base = append(base, env...)
 	ov := filepath.Join(dir, "overlay.json")
+	timeout := "10m"
+	for _, e := range env {
+		if strings.HasPrefix(e, "VF_TEST_TIMEOUT=") {
+			timeout = strings.TrimPrefix(e, "VF_TEST_TIMEOUT=")
+		}
+	}
 	if _, err := os.Stat(filepath.Join(repo, pkgDir)); err == nil {
-		cmd := exec.Command("go", "test", "-vet=off", "-count=1", "-overlay", ov, "-run", run, "./"+pkgDir)
+		cmd := exec.Command("go", "test", "-vet=off", "-count=1", "-timeout", timeout, "-overlay", ov, "-run", run, "./"+pkgDir)
 		cmd.Dir = repo
 		cmd.Env = base
 		out, _ := cmd.CombinedOutput()
@@ -882,7 +908,7 @@ func goTest(repo, dir, run, pkgDir string, env ...string) string {
 	if out, err := cmd.CombinedOutput(); err != nil {
 		return string(out)
 	}
-	cmd = exec.Command(bin, "-test.count=1", "-test.run", run)
+	cmd = exec.Command(bin, "-test.count=1", "-test.timeout", timeout, "-test.run", run)
 	cmd.Dir = dir
 	cmd.Env = base
 	out, _ := cmd.CombinedOutput()
@@ -979,7 +1005,19 @@ func writeEvidence(root string, prop *Prop, tier string, seed int, results []*hR
 	if ctx != nil {
 		replays += ctx.selfValidated
 		extraObl, extraDis = ctx.extraObligations, ctx.extraDischarged
-		notes = ctx.extraNotes
+		notes = append(notes, ctx.extraNotes...)
+		engineNotes := map[string]bool{}
+		for _, r := range ctx.results {
+			if r != nil && r.res != nil {
+				for k := range r.res.Notes {
+					engineNotes[k] = true
+				}
+			}
+		}
+		for k := range engineNotes {
+			notes = append(notes, "input restriction: "+k)
+		}
+		sort.Strings(notes)
 		for _, s := range ctx.extraSamples {
 			samples = append(samples, s)
 		}
